@@ -223,7 +223,9 @@ func sync_runtime_notifyListAdd(l *notifyList) uint32 {
 func sync_runtime_notifyListWait(l *notifyList, t uint32) {
 	st := getNotifyState(l)
 	st.mu.Lock()
-	for latomic.LoadUint32(&l.notify) == t {
+	// wait until ticket t is covered by a notification, i.e. less(t, notify)
+	// in the wrap-around order Go's notifyList uses
+	for int32(t-latomic.LoadUint32(&l.notify)) >= 0 {
 		st.cond.Wait(&st.mu)
 	}
 	st.mu.Unlock()
@@ -244,7 +246,9 @@ func sync_runtime_notifyListNotifyOne(l *notifyList) {
 	st.mu.Lock()
 	if latomic.LoadUint32(&l.notify) != latomic.LoadUint32(&l.wait) {
 		latomic.AddUint32(&l.notify, 1)
-		st.cond.Signal()
+		// every waiter re-checks its own ticket: wake them all so that the
+		// one whose ticket is now covered is certainly among them
+		st.cond.Broadcast()
 	}
 	st.mu.Unlock()
 }
